@@ -10,6 +10,7 @@ def _mk(headers, checkpoints, npeers, start_heights, inv_ids, max_cf, max_batch,
     for h in headers:
         h.setdefault("kind", "ok")
         h.setdefault("work", 1)
+        h.setdefault("gap", 0)
         h["height"] = 0 if h["id"] == 0 else ids[h["parent"]]["height"] + 1
     children = {}
     for h in headers:
@@ -113,7 +114,56 @@ def u1():
                init_chains=[(0,), (0, 1), (0, 1, 2, 3), (0, 1, 2, 3, 4), (0, 1, 2, 3, 4, 12)])
 
 
-UNIVERSES = {"quick": quick, "small": small, "u1": u1}
+def deep():
+    """A 5-header fork whose last header violates median-time-past only with respect to its
+    TRUE ancestors (timestamp == median of the 6 real ancestors): validation of a reorg
+    branch must use the branch's own headers as context."""
+    H = [
+        {"id": 0, "parent": -1, "work": 2},
+        {"id": 1, "parent": 0, "work": 1},
+        {"id": 2, "parent": 1, "work": 1},
+        {"id": 3, "parent": 2, "work": 1},
+        {"id": 4, "parent": 3, "work": 1},
+        {"id": 5, "parent": 1, "work": 1},           # fork from 1 ...
+        {"id": 6, "parent": 5, "work": 1},
+        {"id": 7, "parent": 6, "work": 1},
+        {"id": 8, "parent": 7, "work": 1},
+        {"id": 9, "parent": 8, "work": 2, "kind": "badtime"},   # ... 5th header not after the median time
+        {"id": 10, "parent": 8, "work": 1},          # valid alternative: 5..8,10 heavier than 2,3,4
+        {"id": 11, "parent": 4, "work": 1},
+    ]
+    B = [[5, 6, 7, 8, 9], [5, 6, 7, 8, 10], [5, 6, 7, 8], [5, 6, 7], [9], [10], [2, 3, 4], [11], [4, 11],
+         [1, 5, 6, 7, 8, 9], [1, 5, 6, 7, 8, 10], [5], [6, 7, 8, 9]]
+    return _mk(H, {}, 2, [0, 7], [4], 2, 6, batches=B, init_chains=[(0, 1), (0, 1, 2, 3, 4), (0, 1, 2, 3)])
+
+
+def retarget():
+    """Retarget every 4 blocks (no min-difficulty rule): difficulties follow from the timestamps,
+    so the work of each header is computed by the generator (auto_work) before TLC runs."""
+    H = [
+        {"id": 0, "parent": -1},
+        {"id": 1, "parent": 0, "gap": 10}, {"id": 2, "parent": 1, "gap": 10}, {"id": 3, "parent": 2, "gap": 10},
+        {"id": 4, "parent": 3, "gap": 10},           # first header at a retarget height
+        {"id": 5, "parent": 4, "gap": 10}, {"id": 6, "parent": 5, "gap": 10},
+        {"id": 7, "parent": 3, "gap": 15},           # other block at the retarget height (same required bits)
+        {"id": 8, "parent": 7, "gap": 10},
+        {"id": 9, "parent": 3, "gap": 10, "kind": "badbits"},   # retarget not applied
+        {"id": 10, "parent": 2, "gap": 40},          # slower branch: easier target after the retarget
+        {"id": 11, "parent": 10, "gap": 10}, {"id": 12, "parent": 11, "gap": 10},
+        {"id": 13, "parent": 6, "gap": 10},
+        {"id": 14, "parent": 8, "gap": 10}, {"id": 15, "parent": 14, "gap": 10},   # 7,8,14,15: longer fork
+        {"id": 16, "parent": 9, "gap": 10},          # valid child of the header that skipped the retarget
+    ]
+    B = [[4], [4, 5], [5, 6], [3, 4, 5], [7], [7, 8], [3, 7, 8], [2, 3, 7, 8], [9], [3, 9], [10, 11, 12], [10], [11, 12],
+         [13], [7, 8, 14], [7, 8, 14, 15], [3, 7, 8, 14, 15], [6, 13], [1, 3], [9, 16], [3, 9, 16]]
+    u = _mk(H, {}, 2, [0, 9], [4], 2, 5, batches=B,
+            init_chains=[(0, 1, 2, 3), (0, 1, 2, 3, 4), (0, 1, 2, 3, 4, 5, 6)],
+            params={"retarget_blocks": 4, "reduce_min_difficulty": False})
+    u["auto_work"] = True
+    return u
+
+
+UNIVERSES = {"quick": quick, "small": small, "u1": u1, "deep": deep, "retarget": retarget}
 
 
 def tla(u):
